@@ -57,6 +57,9 @@ func TestVerifC02(t *testing.T) {
 				c02AggStream(w, st)
 				c02CreateStream(w, st)
 				c02SchemeStream(w, st)
+				if n >= 2 {
+					c02ReuseStream(w, st)
+				}
 				// single signatures first, then certificates built from them (warm cache)
 				switch {
 				case n == 4 && scheme != crypto.NameBLS12:
@@ -326,6 +329,40 @@ func (w *c02World) sigMutations(m, foreign, foreign2 c02Msg) []c02NamedSpec {
 		out = append(out, c02NamedSpec{"bls-doubled-contribution", c02Spec{parts: w.genuine(append(c02Range(1, q), 1), m), bits: c02Range(1, q), useBits: true}, false})
 		out = append(out, c02NamedSpec{"bls-identity-point", c02Spec{bits: c02Range(1, q), useBits: true}, false})
 		out = append(out, c02NamedSpec{"bls-unknown-bit-only", c02Spec{parts: w.genuine(c02Range(1, q), m), bits: append(c02Range(1, q), uint64(n+40)), useBits: true}, false})
+		// g < q genuine signers whose bitfield is padded to q (and to n) bits with ids that contribute nothing:
+		// non-member ids just above n, non-member ids far away, members that did not sign; the point is the sum
+		// of exactly the genuine signatures (and, as a variant, that sum plus an unrelated point)
+		seenG := map[int]bool{}
+		for _, g := range []int{1, q / 2, q - 1} {
+			if g < 1 || g >= q || seenG[g] {
+				continue
+			}
+			seenG[g] = true
+			for _, total := range []int{q, n} {
+				if total <= g {
+					continue
+				}
+				for _, kind := range []string{"non-member-next", "non-member-far", "silent-member"} {
+					bits := c02Range(1, g)
+					for x := 0; x < total-g; x++ {
+						switch kind {
+						case "non-member-next":
+							bits = append(bits, uint64(n+1+x))
+						case "non-member-far":
+							bits = append(bits, uint64(n+300+x))
+						default:
+							bits = append(bits, uint64(g+1+x))
+						}
+					}
+					name := fmt.Sprintf("bls-%d-genuine-padded-to-%d-bits-%s", g, total, kind)
+					out = append(out, c02NamedSpec{name, c02Spec{parts: w.genuine(c02Range(1, g), m), bits: bits, useBits: true}, false})
+					if total == q {
+						ps := append(w.genuine(c02Range(1, g), m), c02Part{label: 1, signer: 0})
+						out = append(out, c02NamedSpec{name + "-plus-unrelated-point", c02Spec{parts: ps, bits: bits, useBits: true}, false})
+					}
+				}
+			}
+		}
 	}
 	return out
 }
